@@ -120,6 +120,12 @@ func vStepMaker(role int, st StateType) {
 	if broadcast1 && vPostBroadcastWaiting(post) {
 		zzverif.Assert(sc.csvWatchLive(), "C07.waiting_maker_watches_csv")
 	}
+	// a maker that tried to take its funds back keeps trying: a step in which a csv or coop spend was
+	// attempted never ends resting in the claiming state (the fault budget lets the next attempt succeed),
+	// unless the store failed
+	if w.spendAttempts > 0 && (post == State_SwapInSender_ClaimSwapCsv || post == State_SwapOutReceiver_ClaimSwapCsv) {
+		zzverif.Assert(w.storeFailed, "C07.maker_keeps_trying_the_csv_refund")
+	}
 	// ---- C15 ----
 	// The record of the wait that precedes the broadcast is also what is on disk while the broadcasting
 	// action itself runs (C15.record_names_previous_state_while_action_runs): a node restarted from it
